@@ -1,7 +1,8 @@
-/- C16 driver: runs the TypeErased pool model on op lines; one output line per op:
+/- C16 driver: runs the TypeErased pool model (`step` of Model/C16Exec.lean: the interpreter of the
+   programs regenerated from type-erasure.hpp) on op lines; one output line per op:
    the event log of the op (oldest first) followed by the outcome. -/
 import Alpaqa.Model.Proto
-import Alpaqa.Model.C16
+import Alpaqa.Model.C16Exec
 
 open Alpaqa Alpaqa.Proto Alpaqa.C16
 
@@ -35,6 +36,17 @@ def fmtLine (s : State) (tail : String) : String :=
   let e := match s.err with | some m => [s!"MODEL-ERR:{m.replace " " "_"}"] | none => []
   String.intercalate " " (evs ++ [tail] ++ e)
 
+/-- per-arena ledger `c:allocs/frees,…` over the arenas that handed out or got back a block -/
+def fmtArenas (f : State) : String :=
+  let cs := (List.range f.nblk).foldl (fun acc b =>
+    let acc := if acc.contains (cls (f.blk b).alloc) then acc else cls (f.blk b).alloc :: acc
+    match (f.blk b).freedBy with
+    | some a => if acc.contains (cls a) then acc else cls a :: acc
+    | none => acc) ([] : List Nat)
+  let cs := cs.mergeSort (fun a b => a ≤ b)
+  if cs.isEmpty then "-"
+  else String.intercalate "," (cs.map fun c => s!"{c}:{arenaAllocs f c}/{arenaFrees f c}")
+
 def tyP : P Nat := do let t ← tok; match tyOf t with | some n => pure n | none => failure
 
 def parseOp (ts : List String) : Option Op :=
@@ -64,7 +76,8 @@ def c16Step (s : State) (line : String) : State × String :=
   match ts with
   | ["reset", c] =>
     let f := finish { s with log := [] }
-    let out := fmtLine f s!"end bad={badIds f} blk={badBlocks f} ids={f.nextId} nblk={f.nblk}"
+    let out := fmtLine f
+      s!"end bad={badIds f} blk={badBlocks f} ids={f.nextId} nblk={f.nblk} ar={fmtArenas f}"
     (initState (cfgOf (c.toNat?.getD 0)) 16 48, out)
   | _ =>
     match parseOp ts with
